@@ -27,6 +27,21 @@ Theorem C12_roundtrip_actor : forall a, dec_actor (enc_actor a) = norm_actor a.
 Proof. exact actor_roundtrip. Qed.
 Print Assumptions C12_roundtrip_actor.
 
+(* json.Marshal writes every actor chain (the model's encoder is total: it has no
+   error outcome to give), and for chains whose custom claims do not use the names
+   act / iss / sub (in any case variant) Unmarshal returns a chain of the same
+   length with the same parties (iss, sub) in the same order and all custom claims
+   of every level ([actor_sim]).  No hypothesis says that the parties are distinct:
+   svc-a -> svc-b -> svc-a (RFC 8693 4.1 allows it) is covered like any other. *)
+Theorem C12_actor_marshal_total : forall a, exists o, enc_actor a = JObj o.
+Proof. exact enc_actor_is_obj. Qed.
+Print Assumptions C12_actor_marshal_total.
+
+Theorem C12_actor_chain_lossless : forall a, actor_plain a = true ->
+  exists a', dec_actor (enc_actor a) = Ok a' /\ chain_ids a' = chain_ids a /\ actor_sim a a' = true.
+Proof. exact actor_chain_lossless. Qed.
+Print Assumptions C12_actor_chain_lossless.
+
 (* a registered member that is written (set, or not omitempty) is what the
    encoded object holds under its name, whatever the custom map holds *)
 Theorem C12_registered_wins : forall ty vals claims f v j,
